@@ -8,7 +8,8 @@ import networkx as nx
 from fgutils.its import get_its, split_its, ITS
 from fgutils.parse import parse
 from fgutils.rdkit import graph_to_smiles
-from props.c09 import rand_valid_mol, edit_bonds, make_smiles_case
+from props.c09 import (rand_valid_mol, edit_bonds, make_smiles_case, make_reaction, add_derivation, rand_deriv,
+                       rand_aam_map, derive, graph_level_state, args_untouched)
 
 ID = "C10"
 REPEAT_PROBE = True   # engine: repeat 1 call in 5 after editing its first result in place (purity / no shared state)
@@ -28,6 +29,12 @@ RULE = ("op split / class_split: random ITS graphs = (a) fgutils.parse of genera
         "from_smiles and from_smiles(written reaction) = get_its(G,H)): C/N/O skeletons with orders 1-3, metal-metal "
         "quadruple bonds ('$', Mo/W/Re/Cr with halide/C/O ligands, order 4 <-> 3/2/1/none), benzene/pyridine rings "
         "(1.5) with substituent changes and side-chain triple bonds, templates inside the known-finding class; "
+        "op split_hist / its_split_hist: derivation histories -- the base graph OBJECTS first go through split_its (+ get_its) "
+        "resp. get_its + split_its, the graphs under test are derived from those objects with Graph.copy / nx.relabel_nodes"
+        "(copy=True|False) / subgraph(..).copy() / the same object, ids permuted, map numbers permuted / renumbered / dropped, "
+        "and split_its resp. split_its(get_its(..)) on the derived objects is compared with the model on the derived contents "
+        "(its_split_hist also runs its_checkb on the intermediate ITS); every call is checked to leave nodes, adjacency, all "
+        "attribute dicts and the graph-level dict of its arguments unchanged; "
         "op resup: ITS graphs named by positive map numbers in any order, get_its(*split_its(its)) computed by the implementation; "
         "op its_split: fully mapped reactions (same atoms both sides, ids = map numbers, independent insertion orders), "
         "split_its(get_its(G,H)) computed by the implementation. non-trivial = at least one tuple/list label with differing "
@@ -320,9 +327,22 @@ def generate(seed, tier, ncases=None):
                 c["radius"] = rng.choice([0, 0, 1, 2])
                 c["ih"] = rng.random() < 0.5
                 c["pre"] = rng.choice(["split", "smiles", "both"])
+            if c["op"] == "split" and c["src"] != "corpus" and rng.random() < 0.12:
+                # derivation history: the base ITS object is split (and re-superimposed) first, the ITS under test is
+                # derived from that very object (copy / relabel_nodes / subgraph / same), then split
+                its0 = c["its"]
+                c["op"], c["its0"] = "split_hist", its0
+                c["deriv"] = rand_deriv(rng, its0, rand_aam_map(rng, [its0]) if rng.random() < 0.6 else [])
+                c["its"] = gens.copy_exact(derive(gens.copy_exact(its0), c["deriv"]))
             yield c
         elif r < 0.75:
             yield gen_resup(rng)
+        elif r < 0.83:
+            # derivation history through both functions: get_its + split_its on the base objects, derived graphs,
+            # then get_its and split_its on the derived objects
+            c = add_derivation(rng, make_reaction(rng, rng.choice(["identity", "shuffled", "partial", "onesided", "mixed"])))
+            c["op"], c["src"] = "its_split_hist", "history/" + c["derivG"]["how"] + "/" + c["derivH"]["how"]
+            yield c
         else:
             yield gen_its_split(rng)
 
@@ -350,8 +370,34 @@ def run_impl(c):
     try:
         if c["op"] in ("split", "smiles_split"):
             its = gens.copy_exact(c["its"])
+            st = graph_level_state(its)
             g, h = split_its(its)
-            return ("ok", g, h, gens.graphs_identical(its, c["its"]))
+            return ("ok", g, h, args_untouched(its, c["its"], st))
+        if c["op"] == "split_hist":
+            its0 = gens.copy_exact(c["its0"])
+            a, b = split_its(its0)
+            try:
+                get_its(a, b)
+            except Exception:   # noqa  (halves of an arbitrary labelled graph need not be valid get_its input)
+                pass
+            its = derive(its0, c["deriv"])
+            if not gens.graphs_identical(its, c["its"]):
+                return ("HarnessError", "derived graph differs from the recorded contents")
+            st = graph_level_state(its)
+            g, h = split_its(its)
+            return ("ok", g, h, args_untouched(its, c["its"], st))
+        if c["op"] == "its_split_hist":
+            g0, h0 = gens.copy_exact(c["G0"]), gens.copy_exact(c["H0"])
+            split_its(get_its(g0, h0))
+            G, H = derive(g0, c["derivG"]), derive(h0, c["derivH"])
+            if not (gens.graphs_identical(G, c["G"]) and gens.graphs_identical(H, c["H"])):
+                return ("HarnessError", "derived graphs differ from the recorded contents")
+            sg, sh = graph_level_state(G), graph_level_state(H)
+            its = get_its(G, H)
+            its_ref, si = gens.copy_exact(its), graph_level_state(its)
+            g, h = split_its(its)
+            ok = args_untouched(G, c["G"], sg) and args_untouched(H, c["H"], sh) and args_untouched(its, its_ref, si)
+            return ("ok", g, h, ok, its)
         if c["op"] == "class_split":
             its = gens.copy_exact(c["its"])
             obj = ITS(its)
@@ -375,14 +421,20 @@ def run_impl(c):
             return ("ok", g, h, True, obj.graph)
         if c["op"] == "resup":
             its = gens.copy_exact(c["its"])
+            st = graph_level_state(its)
             g, h = split_its(its)
+            g_ref, h_ref, sg, sh = gens.copy_exact(g), gens.copy_exact(h), graph_level_state(g), graph_level_state(h)
             out = get_its(g, h)
-            return ("ok", out, None, gens.graphs_identical(its, c["its"]))
+            ok = args_untouched(its, c["its"], st) and args_untouched(g, g_ref, sg) and args_untouched(h, h_ref, sh)
+            return ("ok", out, None, ok)
         if c["op"] == "its_split":
             G, H = gens.copy_exact(c["G"]), gens.copy_exact(c["H"])
+            sg, sh = graph_level_state(G), graph_level_state(H)
             its = get_its(G, H)
+            its_ref, si = gens.copy_exact(its), graph_level_state(its)
             g, h = split_its(its)
-            return ("ok", g, h, gens.graphs_identical(G, c["G"]) and gens.graphs_identical(H, c["H"]))
+            ok = args_untouched(G, c["G"], sg) and args_untouched(H, c["H"], sh) and args_untouched(its, its_ref, si)
+            return ("ok", g, h, ok)
     except Exception as e:
         return (type(e).__name__, str(e))
     raise ValueError(c["op"])
@@ -390,13 +442,19 @@ def run_impl(c):
 
 def coq_case(c, out):
     op = c["op"]
-    if op == "its_split":
+    if op in ("its_split", "its_split_hist"):
         defs = {"G": ct.graph(c["G"]), "H": ct.graph(c["H"])}
     else:
         defs = {"its": ct.graph(c["its"])}
     if out[0] != "ok":
         return {"defs": defs, "checks": {"agree": "false", "spec": "false"}, "diag": []}
-    if op in ("split", "smiles_split"):
+    if op == "its_split_hist":
+        defs["g"], defs["h"], defs["its"] = ct.graph(out[1]), ct.graph(out[2]), ct.graph(out[4])
+        agree = ("graph_equivb (get_its $G $H) $its && graph_equivb (fst (split_its (get_its $G $H))) $g "
+                 "&& graph_equivb (snd (split_its (get_its $G $H))) $h")
+        spec = "its_checkb $G $H $its && split_okb $its ($g, $h)"
+        diag = ["get_its $G $H", "split_its (get_its $G $H)"]
+    elif op in ("split", "smiles_split", "split_hist"):
         defs["g"], defs["h"] = ct.graph(out[1]), ct.graph(out[2])
         agree = "graph_equivb (fst (split_its $its)) $g && graph_equivb (snd (split_its $its)) $h"
         spec = "split_okb $its ($g, $h)"
@@ -427,10 +485,10 @@ def coq_case(c, out):
 
 def describe(c):
     d = {"op": c["op"], "src": c["src"]}
-    for k in ("its", "G", "H", "srcG", "srcH"):
+    for k in ("its", "G", "H", "srcG", "srcH", "its0", "G0", "H0"):
         if k in c:
             d[k] = ct.graph_py(c[k])
-    for k in ("smiles", "pattern", "radius", "ih", "pre"):
+    for k in ("smiles", "pattern", "radius", "ih", "pre", "deriv", "derivG", "derivH"):
         if k in c:
             d[k] = c[k]
     return d
@@ -438,10 +496,10 @@ def describe(c):
 
 def from_json(d):
     c = {"op": d["op"], "src": d["src"]}
-    for k in ("its", "G", "H", "srcG", "srcH"):
+    for k in ("its", "G", "H", "srcG", "srcH", "its0", "G0", "H0"):
         if k in d:
             c[k] = ct.graph_from_py(d[k])
-    for k in ("smiles", "pattern", "radius", "ih", "pre"):
+    for k in ("smiles", "pattern", "radius", "ih", "pre", "deriv", "derivG", "derivH"):
         if k in d:
             c[k] = d[k]
     return c
@@ -459,6 +517,10 @@ def describe_out(out):
 def key(c):
     if c["op"] == "its_split":
         return (c["op"], ct.graph_canon(c["G"]), ct.graph_canon(c["H"]))
+    if c["op"] == "its_split_hist":
+        return (c["op"], repr(c["derivG"]), repr(c["derivH"]), ct.graph_canon(c["G0"]), ct.graph_canon(c["H0"]))
+    if c["op"] == "split_hist":
+        return (c["op"], repr(c["deriv"]), ct.graph_canon(c["its0"]))
     return (c["op"], ct.graph_canon(c["its"]))
 
 
@@ -474,6 +536,8 @@ def _interesting_labels(g):
 def nontrivial(c, out):
     if out[0] != "ok":
         return False
+    if c["op"] == "its_split_hist":
+        return out[4].number_of_edges() >= 1
     if c["op"] == "its_split":
         G, H = c["G"], c["H"]
         eg = {frozenset(e[:2]): e[2]["bond"] for e in G.edges(data=True)}
@@ -484,6 +548,11 @@ def nontrivial(c, out):
 
 def classes(c, out):
     yield "op=" + c["op"]
+    if "deriv" in c:
+        yield "derived=" + c["deriv"]["how"]
+    if "derivG" in c:
+        yield "derivedG=" + c["derivG"]["how"]
+        yield "derivedH=" + c["derivH"]["how"]
     yield "src=" + c["src"]
     yield "result=" + out[0]
     if "its" in c:
@@ -624,7 +693,8 @@ def py_invariants(c, out):
     if out[0] != "ok":
         return ["%s raised %s: %s" % (c["op"], out[0], out[1])]
     if not out[3]:
-        msgs.append("%s mutated its argument" % c["op"])
+        msgs.append("%s changed one of its arguments (nodes, adjacency, an attribute dict or the graph-level dict "
+                    "G.graph)" % c["op"])
     if c["op"] == "smiles_split" and smiles_leg_applicable(c["smiles"]):
         # SMILES leg: RDKit writer / reader as oracles
         msg = smiles_round_trip(c["smiles"])
